@@ -20,7 +20,10 @@ type RaceReport struct {
 	Text    string
 }
 
-type frame struct{ fn, file string; line int }
+type frame struct {
+	fn, file string
+	line     int
+}
 
 var (
 	caseMarkRe = regexp.MustCompile(`^@@CASE \S+ \S+ (\d+)`)
